@@ -211,8 +211,16 @@ func streamEdsReconcile(r *rand.Rand, i int, tier string) *Case {
 	// per case, every template of the history carries the same scheduling constraint (or none), so
 	// that node fitness matters for the nodes the EDS targets and the canary nodes it selects
 	deco := r.Intn(4)
+	metaDiff := r.Intn(2) == 0
 	tplCase := func(id int) corev1.PodTemplateSpec {
 		t := tplOf(id)
+		if metaDiff {
+			// the templates of the history also differ in their metadata (a config checksum, a label)
+			t.Annotations = map[string]string{"checksum/config": fmt.Sprintf("cfg-%d", id)}
+			if id == 2 {
+				t.Labels["tier"] = "new"
+			}
+		}
 		switch deco {
 		case 1:
 			t.Spec.NodeSelector = map[string]string{"zone": "a"}
